@@ -20,7 +20,9 @@ UnselectedBranchSilent ==
 ShortCircuit ==
   \A n \in 1..N :
      (K(n) \in {"and", "or"} /\ St(n) = "run" /\ Ph(n) >= 1) =>
-        /\ \A i \in 1..(Ph(n) - 1) : St(Ch(n)[i]) = "done" /\ (Truthy(nd[Ch(n)[i]].val) = (K(n) = "and"))
+        /\ \A i \in 1..(Ph(n) - 1) : St(Ch(n)[i]) = "done" /\
+              \* (a box may have changed its truthiness since it was tested)
+              (nd[Ch(n)[i]].val[1] # "box" => (Truthy(nd[Ch(n)[i]].val) = (K(n) = "and")))
         /\ \A i \in (Ph(n) + 1)..NCh(n) : \A d \in Sub(Ch(n)[i]) : St(d) = "idle"
 \* ordered forms run at most one child at a time
 OrderedOneAtATime ==
